@@ -178,6 +178,26 @@ PROPS = {
             'kinds': K_SEQ | K_MEM | K_STABLE | K_TIGHT | K_LIFE, 'crash': crash_any, 'filter': reserve_related,
             'technique': 'every Reserve step of the TLC-generated histories (no-op and growing, any fill level) '
                          'judged by Trace.tla: contents, capacity, block stability when n <= capacity'},
+    'C11': {'level': 'model_checking',
+            'units': {'quick': u('S4', ALL) + u('S4x', ['F_T', 'F_N', 'V_T', 'P_N', 'F_TA']),
+                      'thorough': u('S4', ALL, ('AE', 'NP')) + u('S4x', ALL)},
+            'kinds': K_SEQ | K_LIFE | {'PATHS_DISAGREE', 'ITERATOR_ARITHMETIC', 'ALLOCATOR_USED', 'BYSTANDER_CHANGED'},
+            'crash': crash_any, 'filter': None,
+            'technique': 'TLA+ model of references/iterators as proxies (assignment, move assignment, swap, iter_swap, '
+                         'writes through every access path, rotate/reverse/swap_ranges as sequence permutations) '
+                         'explored by TLC; after every step all six access paths must project the model state; the '
+                         'complete iterator arithmetic/comparison table is compared with integer arithmetic'},
+    'C12': {'level': 'model_checking',
+            'units': {'quick': u('S3', ['F_T', 'F_N', 'V_T', 'V_N', 'V_TA', 'M_NA', 'P_TA'], ('NP',))
+                               + u('S3', ['F_N', 'V_N'], ('AE', 'PR')),
+                      'thorough': u('S3', ALL, ('NP', 'AE', 'PR'))},
+            'kinds': K_VALUE | K_LIFE | K_ALLOC | K_LEDGER | K_ORDER | K_MEM | K_ALIGN | K_TIGHT | {'PATHS_DISAGREE'},
+            'crash': crash_any, 'filter': None,
+            'technique': 'TLA+ model of stand-alone elements (construction from const / rvalue references, copy, move, '
+                         'allocator-extended forms, assignment in both size directions, swap, assignment to and from '
+                         'references) explored by TLC with one vector and two elements; projection of the vector and of '
+                         'both elements (values, own block, allocator, layout, live objects) judged by Trace.tla after '
+                         'every step'},
     'C16': {'level': 'model_checking',
             'units': {'quick': u('S1', ALL) + u('S2', ALL, ('NP',)),
                       'thorough': u('S1', ALL, ('AE', 'NP')) + u('S2', ALL, ('NP', 'AE', 'PR'))},
@@ -301,6 +321,7 @@ def write_replay(pid, key, r, v):
 
 def run_property(pid, tier, seed):
     t0 = time.time()
+    vlib.prune_cache()
     cfgs, akinds, _ = vlib.load_configs()
     prop = PROPS[pid]
     pool0 = ThreadPoolExecutor(4)
